@@ -22,6 +22,18 @@ CHECKS = {
         technique='runtime monitor over completely enumerated decision trees: per program every oracle decision sequence is executed (loops bounded at 2 trips), so "delivered on no path" / "unbound on some path" are decided and compared with supp alternatives, undefined markers and E02',
         text='On programs whose decision tree was enumerated completely, every same-scope alternative supp lists must have been delivered on some path, the possibly-undefined marker must agree with the existence of an unbound arrival, and reads unbound on every path must carry E02.',
         design='2, 3/C03', engine='E1-dynexec'),
+    'C04': dict(
+        technique='history monitor: every read site of one analysed module is queried under permutations / forward / reverse / inside-out / repeated histories and as part of lint(), each answer compared with the first-query answer on a fresh analysis; request histories on one Project vs fresh Projects',
+        text='Answers (alternatives of the identifier as binding sites, set of visible names, lint resolution, request replies) observed under many query histories on one analysis state must equal the answer the same site gets as first query on a fresh analysis. Complete over all permutations for tiny modules (<= 6 reads), sampled otherwise.',
+        design='3/C04', engine=''),
+    'C10': dict(
+        technique='differential runtime monitor: lint() output on generated modules (binding-kind x scope-kind x name-shape matrix with a random never-read subset) and real files compared with a purely syntactic reference of the W01/W02 exemption rules',
+        text='For every binding whose identifier has no read occurrence in the file, the real lint() must report it iff the syntactic rule says so, once, with the right code and message; the matrix cells covered are counted in the evidence.',
+        design='3/C10', engine=''),
+    'C15': dict(
+        technique='history monitor against a real server subprocess: request histories with faults injected at every index are sent through supp.remote.Environment and each reply is compared with an in-process mirror (same Project history); pid/liveness and request-reply pairing tokens observed at the client boundary',
+        text='Every reply of the real server process must equal the in-process result for the same request history (after transport normalisation); failing requests must surface as exceptions with the server message and leave later replies and the server pid unchanged.',
+        design='3/C15', engine=''),
     'C14': dict(
         technique='differential runtime monitor: every dumps/loads call on the real codec compared with a reference decoder/encoder written from the MessagePack spec; exhaustive boundary enumeration + random nested values',
         text='Every dumps()/loads() of the real supp.umsgpack on the enumerated boundary integers, lengths, first bytes and cut points (complete for those finite sets) and on random nested values is compared with an independent reference codec; a disagreement is a violation with the byte stream as witness.',
